@@ -88,6 +88,26 @@ def run(pid, tier):
     for (ln, ev) in parse_bad(r5.out):
         o.finding(kind='knuth', fam=ev.get('fam'), ft=ev.get('ft'), params=ev.get('params'), res=str(ev.get('res'))[:80], show=ev.get('show'),
                   event={k: v for k, v in ev.items() if k not in ('probes',)}, signature='knuth:%s:%s:%s' % (ev.get('fam'), ev.get('ft'), ev.get('params')))
+    # BTPE (Binomial, n min(p,1-p) >= 10), pointwise: region-2 acceptance fraction = exact pmf ratio, region-1 triangle map
+    bt = wd / 'btpe.ndjson'
+    r6 = tlc('MCBtpe', 'MCBtpe.cfg', pid, 'btpe_cases', workers=1, timeout=1200, heap='2g',
+             pipe_to=[str(RDV), 'btpe-drive', '--out', str(bt)])
+    require_ok(r6, 'MCBtpe')
+    s6 = json.loads(r6.consumer_out.strip().splitlines()[-1])
+    if s6['events'] < 60:
+        raise ToolError('btpe-drive: too few events: %s' % s6)
+    r7 = tlc('TraceBtpe', 'TraceBtpe.cfg', pid, 'btpe_trace', trace_mode=True, env={'TRACE': bt}, timeout=1200, heap='4g')
+    require_ok(r7, 'TraceBtpe')
+    if r7.rejected or r7.violated:
+        raise ToolError('btpe trace not consumed: %s' % (r7.rejected or r7.violated))
+    o.add_tlc(r7, 'TraceBtpe: %d measured acceptance prefixes / triangle counts at the anchors of BtpeTable' % s6['events'])
+    blines = bt.read_text().splitlines()
+    o.traces += len(blines)
+    o.extra['btpe_drive'] = s6
+    for (ln, ev) in parse_bad(r7.out):
+        o.finding(kind='btpe', op=ev.get('op'), case=ev.get('case'), k=ev.get('k'), y=ev.get('y'), res=str(ev.get('res'))[:80], show=ev.get('show'), event=ev,
+                  signature='btpe:%s:%s:%s' % (ev.get('op'), ev.get('case'), ev.get('k')))
+    o.samples.append({'kind': 'BTPE region 2: measured acceptance prefix', 'event': json.loads(blines[0])})
     o.samples.append({'kind': 'Knuth method: exact P(X = 0) of Poisson<f64>', 'event': {k: v for k, v in json.loads(klines[-5]).items() if k != 'probes'}})
     o.samples.append({'kind': 'exact law of a two-word rejection sampler (f32) over 2^48 tickets', 'event': {k: v for k, v in json.loads(rlines[0]).items() if k != 'probes'}})
     o.samples.append({'kind': 'ticket histogram (real sampler -> TraceDiscrete)', 'event': next(e for e in evs if e['op'] == 'hist' and e['kind'] == 'hin' and e['par'][0] >= 8)})
@@ -96,7 +116,9 @@ def run(pid, tier):
         'exact regimes only: BINV (n*min(p,1-p) < 10, dyadic p), HIN (N <= 16 histograms, N <= 30 breakpoint tickets), Geometric/StandardGeometric structure, '
         'Zipf and Zeta in f32 (exact law over the 2^24 x 2^24 lattice of proposal and acceptance word at the table\'s parameter points, k <= 24 and the tail, tolerance 2^-20 + 2^-14 p); '
         'Poisson with lambda < 12 (Knuth) and Binomial\'s Poisson limit: P(X = 0) = exp(-lambda) exactly (the one-word returns are a prefix of the word range; bisection with witnesses, f64) and P(X = 0), P(X = 1) over the 2^48 tickets in f32; the rest of those laws is not decided; '
-        'BTPE, Poisson PD (lambda >= 12), H2PE and the f64 instantiations of Zipf/Zeta are floating-point rejection kernels whose laws are NOT decided',
+        'BTPE is decided POINTWISE in its two main regions: at the anchors of spec/BtpeTable.tla (6 parameter points incl. a flipped one and three with the squeeze / Stirling path) the proposal of a region-2 first word is the table\'s y and '
+        'the accepting second words are a prefix of relative length (f(y)/f(m) - 1 + |x - x_m|/p1)/c with f the binomial pmf itself (2^-28), and the triangle map of region 1 is exact (2^-44); the exponential tails (regions 3, 4: about 5% of the proposals) and everything between anchors are NOT decided',
+        'Poisson PD (lambda >= 12), H2PE and the f64 instantiations of Zipf/Zeta are floating-point rejection kernels whose laws are NOT decided',
         'Zipf/Zeta: the documented pmf values are mpmath constants of spec/RejectionTable.tla; the law formula A_k / A assumes two words per iteration and an acceptance region that is a prefix of the acceptance lattice, '
         'both checked (other = 0; probes) - and is itself checked by ticket enumeration on a toy instance (RejToy.tla, with a deliberately wrong variant that must fail)',
         'half a ticket (>= 2^-31) is eleven orders of magnitude above the rounding error of the code\'s recurrences',
